@@ -6,6 +6,7 @@
    Encoding: fields `;`, list items `,`, item parts `.` or `:`; strings as `x<hex>`; an exact decimal as
    `[-]<man>e<exp>` (loaded values are printed in normal form: no trailing zeros in the mantissa). -/
 import Iodata.Gen.LayoutsR
+import Iodata.Gen.Layouts
 namespace Iodata.Drv.FmtR
 open Iodata.Chars Iodata.Decimal Iodata.Fmt Iodata.FmtR
 
@@ -81,7 +82,69 @@ def load (hex : String) : String :=
   | .error _ => "err LoadError"
 end G
 
+/-! ### VASP: `x<title>;<scaling>;<9 cell numbers>;z:count,…;sel;cart;<coords>;x<flag>,…;nx.ny.nz;<line>|<line>…;x<tail>,…`
+loaded: `x<title>;<atnums>;<cellvecs>;<atcoords>;nx.ny.nz;<axes>;<data, C order>` with exact rationals `n/d` -/
+namespace V
+open Iodata.FmtR.Vasp
+
+def decBool (s : String) : Bool := s == "1"
+
+def group3 {α} : List α → List (List α)
+  | a :: b :: c :: r => [a, b, c] :: group3 r
+  | _ => []
+
+def decElem (s : String) : Nat × Nat :=
+  match s.splitOn ":" with
+  | [z, c] => (z.toNat!, c.toNat!)
+  | _ => (0, 0)
+
+def decShape (s : String) : Idx3 :=
+  match s.splitOn "." with
+  | [a, b, c] => (a.toNat!, b.toNat!, c.toNat!)
+  | _ => (0, 0, 0)
+
+def decModel (payload : String) : Option Model :=
+  match payload.splitOn ";" with
+  | [t, sc, cell, el, sel, cart, co, fl, sh, ch, tl] =>
+    some ⟨decStr t, decNum sc, group3 (decList "," decNum cell), decList "," decElem el, decBool sel, decBool cart,
+      group3 (decList "," decNum co), decList "," decStr fl, decShape sh, decList "|" (decList "," decNum) ch,
+      decList "," decStr tl⟩
+  | _ => none
+
+def spec (payload : String) : String :=
+  match decModel payload with
+  | some m => okHex (specRender Gen.Layouts.tables vasp5 m)
+  | none => "bad-request"
+
+def encRat (q : Rat) : String := toString q.num ++ "/" ++ toString q.den
+def encRats (rows : List (List Rat)) : String := encList "," encRat rows.flatten
+
+def encHeader (h : Header) : String :=
+  let U := Gen.LayoutsR.vaspU
+  s!"{encStr h.title};{encList "," toString h.atnums};{encRats (cellvecs U h)};{encRats (atcoords U h)}"
+
+def encGrid (k : Kind) (g : Grid) : String :=
+  let U := Gen.LayoutsR.vaspU
+  let s := g.shape
+  let pts := (List.range s.1).flatMap fun i => (List.range s.2.1).flatMap fun j => (List.range s.2.2).map fun l => (i, j, l)
+  s!"{encHeader g.hdr};{s.1}.{s.2.1}.{s.2.2};{encRats (axes U g)};{encList "," (fun p => encRat (dataAt U k g p)) pts}"
+
+def load (k : Kind) (hex : String) : String :=
+  match loadGrid Gen.LayoutsR.vaspL Gen.Layouts.tables (linesOfHex hex) with
+  | .ok (g, _) => "ok " ++ encGrid k g
+  | .error _ => "err LoadError"
+
+def loadPoscar (hex : String) : String :=
+  match loadHeader Gen.LayoutsR.vaspL Gen.Layouts.tables (linesOfHex hex) with
+  | .ok (h, _) => "ok " ++ encHeader h
+  | .error _ => "err LoadError"
+end V
+
 def handle : List String → Option String
+  | ["fmtr", "spec", "vasp", payload] => some (V.spec payload)
+  | ["fmtr", "load", "chgcar", payload] => some (V.load .chgcar payload)
+  | ["fmtr", "load", "locpot", payload] => some (V.load .locpot payload)
+  | ["fmtr", "load", "poscar", payload] => some (V.loadPoscar payload)
   | ["fmtr", "spec", "glog", payload] => some (G.spec payload)
   | ["fmtr", "load", "glog", payload] => some (G.load payload)
   | _ => none
